@@ -45,6 +45,21 @@ def dialect_for(wname, rname):
     return DIALECT[qs.pop()] if qs else "ansi"
 
 
+def _hash_ok(found, spelling, nparts):
+    """a Table built directly from the same spelling that compares equal to the one the analyser found must hash equally
+    and be found in a set (1-2 part names: the string constructor does not take quoted 3-part names apart)"""
+    if nparts > 2 or "[" in spelling:
+        return True
+    from sqllineage.core.models import Table
+    try:
+        t = Table(spelling)
+    except Exception:  # noqa
+        return True
+    if t == found:
+        return hash(t) == hash(found) and t in {found} and found in {t}
+    return True
+
+
 def run(case):
     from sqllineage.runner import LineageRunner
     warnings.simplefilter("ignore")
@@ -52,7 +67,7 @@ def run(case):
     dia = dialect_for(wn, rn)
     if dia is None:
         return {"skip": "mixed quote styles"}
-    out = {"exc": "none", "dialect": dia}
+    out = {"exc": "none", "dialect": dia, "hash_consistent": True}
     try:
         if (wp, rp) == ("target", "next_stmt_from"):
             W, R = spell(wn, "tab"), spell(rn, "tab")
@@ -65,6 +80,7 @@ def run(case):
             out["rprinted"] = printed(str(b.source_tables[0]), len(rn))
             lr = LineageRunner(out["sql"], dialect=dia)
             out["connected"] = len(lr.intermediate_tables) == 1
+            out["hash_consistent"] = _hash_ok(a.target_tables[0], W, len(wn)) and _hash_ok(b.source_tables[0], R, len(rn))
         elif (wp, rp) == ("from", "from"):
             W, R = spell(wn, "tab"), spell(rn, "tab")
             out["sql"] = "insert into fin select c1 from %s union all select c1 from %s" % (W, R)
@@ -74,13 +90,16 @@ def run(case):
             out["rprinted"] = printed(str(b.source_tables[0]), len(rn))
             lr = LineageRunner(out["sql"], dialect=dia)
             out["connected"] = len(lr.source_tables) == 1
-        elif rp == "next_stmt_colref":
+            out["hash_consistent"] = _hash_ok(a.source_tables[0], W, len(wn))
+        elif rp in ("next_stmt_colref", "next_stmt_colref_after_rename"):
             W, R = spell(wn, "col"), spell(rn, "col")
             s1 = ("insert into mid select c0 as %s from src0" % W) if wp == "target_column" else ("insert into mid (%s) select c0 from src0" % W)
             s2 = "insert into fin select %s as out1 from mid" % R
+            if rp == "next_stmt_colref_after_rename":
+                s2 = "alter table mid rename to mid2;\ninsert into fin select %s as out1 from mid2" % R
             out["sql"] = s1 + ";\n" + s2
             a = LineageRunner(s1, dialect=dia).get_column_lineage()
-            b = LineageRunner(s2, dialect=dia).get_column_lineage()
+            b = LineageRunner(s2.split(";\n")[-1], dialect=dia).get_column_lineage()
             out["wprinted"] = [case_of(a[0][-1].raw_name)]
             out["rprinted"] = [case_of(b[0][0].raw_name)]
             paths = LineageRunner(out["sql"], dialect=dia).get_column_lineage()
